@@ -509,6 +509,178 @@ def restart_and_reuse(w):
         w.one(kdrv.get(uid), 'get after restart')
 
 
+# ---------------------------------------------------------------------------------------------- session layer
+import c20_hist as HH
+
+
+def _register_item(w, key):
+    return kdrv.register(OT.SYMMETRIC_KEY, kdrv.symmetric_key_secret(key, ALG.AES, len(key) * 8), mask=ALLMASK)
+
+
+@atom(layer='session')
+def sess_auth_password(w):
+    """Requests that carry a username/password credential (the password is a canary) under every certificate shape."""
+    pw = w.can.new('password', 20, text=True).decode()
+    auth = HH.password_auth('alice', pw)
+    key = w.can.new('key-material:session', 32)
+    frames = [HH.encode_request(w, [_register_item(w, key)], auth=auth),
+              HH.encode_request(w, [kdrv.get('1')], auth=auth),
+              HH.encode_request(w, [kdrv.get('404')], auth=auth),
+              HH.encode_request(w, [kdrv.get('1')], auth=auth, version=(9, 9)) if False else HH.encode_request(w, [kdrv.get('1')], auth=auth, asynchronous=True),
+              HH.encode_request(w, [kdrv.get('1')], auth=auth, max_size=40),
+              HH.encode_request(w, [kdrv.destroy('1'), kdrv.get('1')], auth=auth, version=(1, 4))]
+    HH.run_session(w, b''.join(frames), label='good certificate')
+    one = HH.encode_request(w, [kdrv.get('1')], auth=auth)
+    for cns, eku, lab in ((['alice'], 'absent', 'no eku'), (['alice'], 'server', 'server-only eku'),
+                          (['alice', 'bob'], 'client', 'two common names'), ([], 'client', 'no common name')):
+        HH.run_session(w, one, cert=HH.make_cert(cns, eku), label=lab)
+    HH.run_session(w, one, cert=None, label='no certificate')
+    HH.run_session(w, one, cert=HH.make_cert(['alice'], 'absent'), tls_auth=False, label='eku check disabled')
+    HH.run_session(w, one, cert=HH.make_cert(['mallory'], 'client'), label='other user')
+    import ssl
+    HH.run_session(w, one, handshake_error=ssl.SSLError(1, 'handshake failure (scripted)'), label='handshake failure')
+
+
+class _Resp:
+    def __init__(self, code, body=None):
+        self.status_code = code
+        self._body = body or {}
+
+    def json(self):
+        return self._body
+
+
+@atom(layer='session')
+def sess_slugs(w):
+    from kmip.services.server.auth import slugs as slugs_mod
+    pw = w.can.new('password', 24, text=True).decode()
+    auth = HH.password_auth('alice', pw)
+    one = HH.encode_request(w, [kdrv.get('1')], auth=auth)
+    real = slugs_mod.requests.get
+    script = {}
+
+    def fake_get(url, timeout=None):
+        kind = 'groups' if url.endswith('/groups') else 'user'
+        o = script[kind]
+        if o == 'unreachable':
+            raise ConnectionError('scripted: unreachable ' + url)
+        return _Resp(*o)
+    slugs_mod.requests.get = fake_get
+    try:
+        on = [('auth:slugs', {'enabled': 'True', 'url': 'http://slugs.invalid/slugs/'})]
+        for user, groups, lab in (('unreachable', None, 'slugs unreachable'), ((404,), None, 'unknown user'),
+                                  ((200,), (404,), 'no group info'), ((200,), (200, {'groups': ['g1']}), 'slugs ok'),
+                                  ((200,), 'unreachable', 'groups unreachable')):
+            script['user'], script['groups'] = user, groups
+            HH.run_session(w, one, auth_settings=on, label=lab)
+        HH.run_session(w, one, auth_settings=[('auth:slugs', {'enabled': 'True', 'url': None})], label='slugs url missing')
+        HH.run_session(w, one, auth_settings=[('auth:ldap', {'enabled': 'True'})], label='unsupported plugin')
+        HH.run_session(w, one, auth_settings=[('auth:slugs', {'enabled': 'False', 'url': 'http://slugs.invalid/'})], label='plugin disabled')
+    finally:
+        slugs_mod.requests.get = real
+
+
+@atom(layer='session')
+def sess_malformed(w):
+    """Undecodable requests that carry key bytes and a password."""
+    import struct as st
+    pw = w.can.new('password', 20, text=True).decode()
+    key = w.can.new('key-material:malformed-request', 32)
+    pt = w.can.new('plaintext', 32)
+    good = HH.encode_request(w, [_register_item(w, key)], auth=HH.password_auth('alice', pw))
+    enc = HH.encode_request(w, [kdrv.encrypt('1', cparams(**CBC), pt, w.can.new('iv', 16))], auth=HH.password_auth('alice', pw))
+
+    def relen(body):
+        return good[:4] + st.pack('!I', len(body)) + body
+    variants = []
+    body = good[8:]
+    variants.append(('truncated body', relen(body[:len(body) - 9])))
+    variants.append(('truncated inside key', relen(body[:body.find(key) + 11])))
+    variants.append(('trailing garbage', relen(body + key)))
+    variants.append(('garbage with key', b'\x42\x00\x78\x01' + st.pack('!I', 48) + key + b'\x00' * 16))
+    variants.append(('wrong root tag', b'\x42\x00\x7b' + good[3:]))
+    k = good.find(key)
+    for off, lab in ((k - 5, 'key item type byte'), (k - 1, 'key item length'), (k - 8, 'key item tag'), (k - 16, 'enclosing struct')):
+        b = bytearray(good)
+        b[off] ^= 0x0f
+        variants.append(('flip ' + lab, bytes(b)))
+    for j in range(24):
+        b = bytearray(w.rng.choice([good, enc]))
+        off = w.rng.randrange(8, len(b))
+        b[off] ^= 1 << w.rng.randrange(8)
+        variants.append(('flip byte %d' % off, bytes(b)))
+    for lab, data in variants:
+        HH.run_session(w, data, label='malformed: ' + lab)
+    HH.run_session(w, good[:4] + st.pack('!I', len(body) + 50) + body, label='advertised length too long (peer closes)')
+    HH.run_session(w, b''.join(v for _, v in variants[:6]) + good, label='several malformed frames then a good one')
+    HH.run_session(w, HH.encode_request(w, [kdrv.get('1')], version=(1, 2))[:8] + b'', label='header only')
+
+
+# ---------------------------------------------------------------------------------------------- pie client
+@atom(layer='client')
+def client_ops(w):
+    from kmip.pie import objects as pobj
+    pw = w.can.new('password', 20, text=True).decode()
+    cl = HH.make_client(w, username='alice', password=pw)
+    C = HH.client_call
+    key = w.can.new('key-material:client', 32)
+    uid = C(w, 'register', cl.register, pobj.SymmetricKey(ALG.AES, 256, key, masks=list(ALLMASK), name='client key'))
+    sd = w.can.new('secret-data', 16)
+    sid = C(w, 'register secret', cl.register, pobj.SecretData(sd, E.SecretDataType.PASSWORD, masks=[MASK.DERIVE_KEY]))
+    C(w, 'get', cl.get, uid)
+    C(w, 'get ghost', cl.get, '4040')
+    C(w, 'get_attributes', cl.get_attributes, uid)
+    C(w, 'get_attribute_list ghost', cl.get_attribute_list, '4040')
+    C(w, 'destroy ghost', cl.destroy, '4040')
+    pt, iv = w.can.new('plaintext', 32), w.can.new('iv', 16)
+    cp_ = {'cryptographic_algorithm': ALG.AES, 'block_cipher_mode': E.BlockCipherMode.CBC, 'padding_method': E.PaddingMethod.PKCS5}
+    C(w, 'encrypt preactive', cl.encrypt, pt, uid=uid, cryptographic_parameters=cp_, iv_counter_nonce=iv)
+    C(w, 'activate', cl.activate, uid)
+    C(w, 'activate twice', cl.activate, uid)
+    r = C(w, 'encrypt', cl.encrypt, pt, uid=uid, cryptographic_parameters=cp_, iv_counter_nonce=iv)
+    if r:
+        C(w, 'decrypt', cl.decrypt, r[0], uid=uid, cryptographic_parameters=cp_, iv_counter_nonce=iv)
+        C(w, 'decrypt truncated', cl.decrypt, r[0][:-5], uid=uid, cryptographic_parameters=cp_, iv_counter_nonce=iv)
+    C(w, 'encrypt bad iv', cl.encrypt, pt, uid=uid, cryptographic_parameters=cp_, iv_counter_nonce=iv[:5])
+    C(w, 'encrypt no params', cl.encrypt, pt, uid=uid)
+    C(w, 'encrypt bad data type', cl.encrypt, 'not bytes', uid=uid)
+    C(w, 'mac', cl.mac, pt, uid, ALG.HMAC_SHA256)
+    C(w, 'mac bad algorithm', cl.mac, pt, uid, ALG.RSA)
+    C(w, 'sign with aes key', cl.sign, pt, uid=uid, cryptographic_parameters={'cryptographic_algorithm': ALG.RSA, 'padding_method': E.PaddingMethod.PSS,
+                                                                              'hashing_algorithm': E.HashingAlgorithm.SHA_256})
+    salt = w.can.new('salt', 16)
+    C(w, 'derive_key', cl.derive_key, OT.SYMMETRIC_KEY, [uid], E.DerivationMethod.PBKDF2,
+      {'cryptographic_parameters': {'hashing_algorithm': E.HashingAlgorithm.SHA_256}, 'salt': salt, 'iteration_count': 10},
+      cryptographic_length=128, cryptographic_algorithm=ALG.AES)
+    C(w, 'derive_key no salt', cl.derive_key, OT.SYMMETRIC_KEY, [uid], E.DerivationMethod.PBKDF2,
+      {'cryptographic_parameters': {'hashing_algorithm': E.HashingAlgorithm.SHA_256}, 'iteration_count': 10},
+      cryptographic_length=128, cryptographic_algorithm=ALG.AES)
+    C(w, 'derive_key from secret without bit', cl.derive_key, OT.SYMMETRIC_KEY, [sid], E.DerivationMethod.HASH,
+      {'cryptographic_parameters': {'hashing_algorithm': E.HashingAlgorithm.SHA_256}}, cryptographic_length=128, cryptographic_algorithm=ALG.AES)
+    C(w, 'get wrapped', cl.get, sid, {'wrapping_method': E.WrappingMethod.ENCRYPT,
+                                       'encryption_key_information': {'unique_identifier': uid, 'cryptographic_parameters': {'block_cipher_mode': E.BlockCipherMode.NIST_KEY_WRAP}}})
+    C(w, 'create', cl.create, ALG.AES, 256)
+    C(w, 'create bad length', cl.create, ALG.AES, 257)
+    C(w, 'create_key_pair', cl.create_key_pair, ALG.RSA, 1024)
+    C(w, 'locate', cl.locate)
+    C(w, 'destroy active', cl.destroy, uid)
+    C(w, 'revoke', cl.revoke, E.RevocationReasonCode.KEY_COMPROMISE, uid)
+    C(w, 'destroy', cl.destroy, uid)
+    C(w, 'register bad object', cl.register, 'not an object')
+    # a second client speaking 2.0 and one with a foreign certificate identity
+    cl2 = HH.make_client(w, version=E.KMIPVersion.KMIP_2_0, username='alice', password=pw)
+    k2 = w.can.new('key-material:client', 16)
+    u2 = C(w, 'register 2.0', cl2.register, pobj.SymmetricKey(ALG.AES, 128, k2, masks=[MASK.ENCRYPT]))
+    C(w, 'get 2.0', cl2.get, u2)
+    C(w, 'get ghost 2.0', cl2.get, '4041')
+    # opening a real connection fails (nothing listens): the client logs the connection error
+    from kmip.pie import client as pie_client
+    cl3 = pie_client.ProxyKmipClient(hostname='127.0.0.1', port=1, username='alice', password=pw)
+    C(w, 'open unreachable', cl3.open)
+    C(w, 'call on closed client', cl3.get, '1')
+    C(w, 'close', cl.close)
+
+
 ENGINE_ALL = ['setup_keys', 'lifecycle_all_types', 'create_paths', 'create_key_pair_paths', 'not_found_and_denied', 'register_failures',
               'get_and_wrap', 'encrypt_decrypt', 'asymmetric_crypto', 'mac_paths', 'derive_paths', 'attribute_paths', 'locate_query',
               'request_level', 'restart_and_reuse']
@@ -518,5 +690,8 @@ CURATED = [
     ('engine-crypto', 'engine', ['setup_keys', 'encrypt_decrypt', 'mac_paths', 'derive_paths']),
     ('engine-asymmetric', 'engine', ['setup_keys', 'asymmetric_crypto']),
     ('engine-wrap-register', 'engine', ['setup_keys', 'lifecycle_all_types', 'get_and_wrap', 'register_failures']),
+    ('session-auth', 'session', ['setup_keys', 'sess_auth_password', 'sess_slugs']),
+    ('session-malformed', 'session', ['setup_keys', 'sess_malformed']),
+    ('client-loopback', 'client', ['client_ops']),
     ('engine-attributes-requests', 'engine', ['setup_keys', 'lifecycle_all_types', 'attribute_paths', 'request_level', 'restart_and_reuse', 'locate_query']),
 ]
